@@ -2,6 +2,7 @@ package psetv2
 
 import (
 	"bytes"
+	"errors"
 	"fmt"
 
 	"github.com/btcsuite/btcd/txscript"
@@ -93,6 +94,15 @@ func Extract(p *Pset) (*transaction.Transaction, error) {
 			witCount, err := wire.ReadVarInt(witnessReader, 0)
 			if err != nil {
 				return nil, err
+			}
+
+			// Every item takes at least the byte of its length prefix:
+			// refuse a count the remaining bytes cannot hold before
+			// allocating for it.
+			if witCount > uint64(witnessReader.Len()) {
+				return nil, errors.New(
+					"final script witness declares more items than it holds",
+				)
 			}
 
 			// Now that we know how may inputs we'll need, we'll
